@@ -22,7 +22,6 @@ NA = {
 }
 PENDING = {
     "C08": "machinery under construction (datesort pipeline simulation, DESIGN.md section 7b); not claimed until the check exists",
-    "C19": "machinery under construction (DESIGN.md section 6); not claimed until the check exists",
     "C20": "machinery under construction (DESIGN.md section 7); not claimed until the check exists",
 }
 
@@ -47,6 +46,15 @@ CHECKS.update({
         "technique": "deterministic simulation: N-input incarnation vs N one-input incarnations under one simulated clock; op sequences on a zone handle vs fresh-handle answers",
         "text": "Histories: for 37 line-independent invocations of dconv/dadd/dround/ddiff/dgrep/dzone a seeded history of 1..700 values (arguments or stdin lines, one line per read()) must print exactly the concatenation of the one-value runs; values are drawn to prime known state (before-first-transition, index >255, missing fields, junk between good values, >255 searches, reader window reuse in the 64-byte-window build). Handle level: after any op sequence a zone handle and its zif_copy must answer like a freshly opened handle, on all installed zones and synthetic ones.",
         "note": "Trusted: forked incarnations really start from fresh static state. Histories with clock-dependent values (time without date, year-month) run under a frozen clock, because the moment `now' is first needed legitimately differs between a long run and a one-value run. dzone histories use well-formed dates only (dzone takes anything else for a zone name).",
+    },
+})
+
+CHECKS.update({
+    "C19": {
+        "engine": "files", "category": "fault_enumeration", "design_ref": "DESIGN.md section 6",
+        "technique": "deterministic simulation with fault injection on a simulated file layer: seeded fault sequences (truncation, corrupted header fields, torn bytes, failing open/fstat/mmap/malloc/write) against the real loaders and map compiler under ASan and guard pages; compiled-map lookups against the source as reference model",
+        "text": "Loader robustness: images of the installed zone database and maps produced by the real compiler are damaged by seeded fault sequences placed at header fields, block boundaries and record ends, then opened, queried and closed inside one incarnation; the oracle is structural (returns within a CPU budget, no sanitizer report, no fault on the guard page behind the file image, returned strings usable). Faithfulness: for generated sources with variable-length keys and zone names that are prefixes of each other every key, each strict prefix, one-character extensions and sort-order neighbours are looked up in the compiled map and compared with the source; write faults in the compiler must leave either nothing or a complete map. Seeded enumeration of fault positions, not exhaustive.",
+        "note": "Trusted: the simulated mmap (file image + ASan-poisoned slack + PROT_NONE guard; in the gcc build only the guard page), the allocator_may_return_null setting (huge allocations fail like malloc does). After a content fault the values returned are not judged. Sources are well-formed and ascending as tzmap check demands; zone name pools stay below 64 KiB (the format's 16-bit offset). A descriptor left open after a failed load is counted as a diagnostic, not a violation.",
     },
 })
 
